@@ -230,6 +230,35 @@ func c06Addr(c *core.Ctx, r *gen.Rand, k addrKind, port int, fam int) {
 			return
 		}
 	}
+	if r.Chance(1, 4) {
+		// one receiver (fresh at first) carried over three reads: message A, another message B, then A again - A's
+		// value is what it was, and A's bytes were not touched by reading B
+		decA, decB := new(stun.Message), new(stun.Message)
+		_ = stun.Decode(refWire, decA)
+		other := r.Bytes(len(wire4))
+		var wantB []byte
+		if k.xor {
+			wantB = ref.EncXORAddr(other, port^0x5555, tid)
+		} else {
+			wantB = ref.EncAddr(other, port^0x5555)
+		}
+		_ = stun.Decode(ref.Encode(0x0101, tid, []ref.Attr{{Type: typ, Value: wantB}}), decB)
+		var rcv net.IP
+		var p1, p2, p3 int
+		e1 := k.get(decA, &rcv, &p1, compat(typ))
+		e2 := k.get(decB, &rcv, &p2, compat(typ))
+		rawAfterB := append([]byte(nil), decA.Raw...)
+		e3 := k.get(decA, &rcv, &p3, compat(typ))
+		c.Count("receivers_carried_over_three_reads", 1)
+		switch {
+		case e1 != nil || e2 != nil || e3 != nil:
+			c.Violate("getter-error", "getter-error:"+k.name, detail(fmt.Sprintf("A, B, A with one receiver: %v / %v / %v", e1, e2, e3)))
+		case !bytes.Equal(rawAfterB, refWire):
+			c.Violate("getter-changed-earlier-message", "getter-changed-earlier-message:"+k.name, detail("reading message B through the receiver that had read message A changed A's raw bytes"))
+		case p3 != port || !rcv.Equal(ip):
+			c.Violate("roundtrip", "roundtrip:"+k.name, detail(fmt.Sprintf("A, B, A with one receiver: the second read of A gives %v:%d", rcv, p3)))
+		}
+	}
 }
 
 type textKind struct {
@@ -339,6 +368,24 @@ func c06(c *core.Ctx) {
 
 				return
 			}
+			if n > 0 && int(i)%7 == 0 {
+				// a value read earlier and kept by the application stays what it was when the same variable reads another message
+				w := r.Bytes(1 + r.Intn(tk.limit))
+				d1, d2 := new(stun.Message), new(stun.Message)
+				_ = stun.Decode(ref.Encode(0x0001, [12]byte{5}, []ref.Attr{{Type: tk.typ, Value: v}}), d1)
+				_ = stun.Decode(ref.Encode(0x0001, [12]byte{6}, []ref.Attr{{Type: tk.typ, Value: w}}), d2)
+				var u stun.TextAttribute
+				e1 := u.GetFromAs(d1, stun.AttrType(tk.typ))
+				first := u
+				e2 := u.GetFromAs(d2, stun.AttrType(tk.typ))
+				c.Count("kept_text_values_checked", 1)
+				if e1 != nil || e2 != nil || !bytes.Equal(first, v) || !bytes.Equal(u, w) {
+					detail["problem"] = fmt.Sprintf("value kept from the first read is now %d bytes %x..., it was %d bytes %x...", len(first), clip(first), len(v), clip(v))
+					c.Violate("roundtrip", "roundtrip:kept-value:"+tk.name, detail)
+
+					return
+				}
+			}
 			for _, wire := range [][]byte{m.Raw, ref.Encode(0x0001, [12]byte{1}, []ref.Attr{{Type: tk.typ, Value: v}})} {
 				dec := new(stun.Message)
 				if derr := stun.Decode(wire, dec); derr != nil {
@@ -359,10 +406,15 @@ func c06(c *core.Ctx) {
 	// (3) ERROR-CODE: every code 300..699 with reasons of several lengths
 	c.Section("error-codes", 400, func(i int64, r *gen.Rand) {
 		code := 300 + int(i)
-		for ri, n := range []int{0, 1, 2, 3, r.Intn(128), r.Intn(764), 763, 1 + r.Intn(40), 4} {
+		for ri, n := range []int{0, 1, 2, 3, r.Intn(128), r.Intn(764), 763, 1 + r.Intn(40), 4, -1} {
 			c.Eval(1)
-			reason := r.Bytes(n)
-			if ri >= 7 {
+			var reason []byte // n == -1: a nil reason is the empty reason
+			if n >= 0 {
+				reason = r.Bytes(n)
+			} else {
+				n = 0
+			}
+			if ri == 7 || ri == 8 {
 				reason[n-1] = 0 // a reason whose last octet is NUL is still part of the value
 			}
 			detail := map[string]interface{}{"code": code, "reason_len": n}
@@ -402,6 +454,46 @@ func c06(c *core.Ctx) {
 
 					return
 				}
+			}
+		}
+		// the library's own reason phrase for this code (if it has one) is the same before and after an application
+		// read it from a message and edited what it got, in place
+		phrase := func() ([]byte, bool) {
+			m := new(stun.Message)
+			_ = m.Build(stun.BindingError, stun.NewTransactionIDSetter(r.TID()))
+			if err := stun.ErrorCode(code).AddTo(m); err != nil {
+				return nil, false
+			}
+			rm, _ := ref.Parse(m.Raw)
+			if rm == nil || len(rm.TLVs) != 1 {
+				return nil, false
+			}
+			_, rr, ok := ref.DecErrorCode(m.Raw[rm.TLVs[0].Off : rm.TLVs[0].Off+rm.TLVs[0].Len])
+
+			return append([]byte(nil), rr...), ok
+		}
+		if before, ok := phrase(); ok {
+			dec := new(stun.Message)
+			_ = stun.Decode(ref.Encode(0x0111, [12]byte{4}, []ref.Attr{{Type: 0x0009, Value: ref.EncErrorCode(code, before)}}), dec)
+			var ec stun.ErrorCodeAttribute
+			if err := ec.GetFrom(dec); err == nil {
+				for k := range ec.Reason {
+					ec.Reason[k] ^= 0x20 // what the application got is the application's
+				}
+			}
+			after, ok2 := phrase()
+			c.Count("default_phrases_checked", 1)
+			if !ok2 || !bytes.Equal(before, after) {
+				c.Violate("wire-format", "wire-format:ErrorCode-default-phrase", map[string]interface{}{"code": code,
+					"problem": "the reason ErrorCode.AddTo writes changed after an application edited the Reason it had read from a message", "before": string(before), "after": string(after)})
+
+				return
+			}
+			pinned := map[int]string{300: "Try Alternate", 400: "Bad Request", 401: "Unauthorized", 420: "Unknown Attribute", 438: "Stale Nonce", 500: "Server Error"}
+			if want, has := pinned[code]; has && string(before) != want {
+				c.Violate("wire-format", "wire-format:ErrorCode-default-phrase", map[string]interface{}{"code": code, "written": string(before), "rfc_phrase": want})
+
+				return
 			}
 		}
 		c.Distinct(uint64(code) | 2<<40)
